@@ -19,8 +19,8 @@ LEVEL = 'model_checking'
 TARGET = 'checks.c01:run'
 
 LENGTHS = {
-    'quick': {'POL': 4, 'IDX': 4, 'INV': 3, 'BLK': 3, 'EXT': 4},
-    'thorough': {'POL': 5, 'IDX': 5, 'INV': 4, 'BLK': 4, 'EXT': 5},
+    'quick': {'POL': 4, 'IDX': 4, 'INV': 3, 'BLK': 3, 'EXT': 4, 'AXT': 3},
+    'thorough': {'POL': 5, 'IDX': 5, 'INV': 4, 'BLK': 4, 'EXT': 5, 'AXT': 4},
 }
 
 
